@@ -175,37 +175,50 @@ type keysCase struct {
 	Kind string   `json:"kind"` // string int64 bytes
 	Keys []string `json:"keys"` // hex for bytes, decimal for int64
 	Perm []int    `json:"perm"`
+	// EncodeAt: numbers of keys already added at which the set is encoded before going on
+	EncodeAt []int `json:"encode_at,omitempty"`
 }
 
-func encodeKeySet(kind string, keys []string) (string, error) {
-	switch kind {
-	case "string":
-		s := batchkeyset.NewBatchKeySet[string]()
-		for _, k := range keys {
-			if err := s.AddKey(k); err != nil {
+// addAndEncode adds the keys one by one; before adding key i an intermediate EncodeQueryParams call is made when
+// encodeAt[i] (earlier use of the set must not influence what it encodes to later).
+func addAndEncode[K any](s batchkeyset.BatchKeySet[K], keys []K, encodeAt map[int]bool) (string, error) {
+	for i, k := range keys {
+		if encodeAt[i] {
+			if _, err := s.EncodeQueryParams(); err != nil {
 				return "", err
 			}
 		}
-		return s.EncodeQueryParams()
+		if err := s.AddKey(k); err != nil {
+			return "", err
+		}
+	}
+	if encodeAt[len(keys)] {
+		if _, err := s.EncodeQueryParams(); err != nil {
+			return "", err
+		}
+	}
+	return s.EncodeQueryParams()
+}
+
+func encodeKeySet(kind string, keys []string, encodeAt map[int]bool) (string, error) {
+	switch kind {
+	case "string":
+		return addAndEncode(batchkeyset.NewBatchKeySet[string](), keys, encodeAt)
 	case "int64":
-		s := batchkeyset.NewBatchKeySet[int64]()
+		var ks []int64
 		for _, k := range keys {
 			var i int64
 			fmt.Sscan(k, &i)
-			if err := s.AddKey(i); err != nil {
-				return "", err
-			}
+			ks = append(ks, i)
 		}
-		return s.EncodeQueryParams()
+		return addAndEncode(batchkeyset.NewBatchKeySet[int64](), ks, encodeAt)
 	case "bytes":
-		s := batchkeyset.NewBatchKeySet[[]byte]()
+		var ks [][]byte
 		for _, k := range keys {
 			b, _ := hex.DecodeString(k)
-			if err := s.AddKey(b); err != nil {
-				return "", err
-			}
+			ks = append(ks, b)
 		}
-		return s.EncodeQueryParams()
+		return addAndEncode(batchkeyset.NewBatchKeySet[[]byte](), ks, encodeAt)
 	}
 	panic("kind " + kind)
 }
@@ -215,7 +228,7 @@ func checkKeySet(rec *stats.Recorder, c keysCase) string {
 	if len(c.Keys) >= 2 {
 		rec.NonTrivial("keyset", c.Kind+"|"+strings.Join(c.Keys, ","), func() any { return c })
 	}
-	first, err := encodeKeySet(c.Kind, c.Keys)
+	first, err := encodeKeySet(c.Kind, c.Keys, nil)
 	if err != nil {
 		return fmt.Sprintf("distinct keys rejected: %v (keys %q)", err, c.Keys)
 	}
@@ -225,12 +238,28 @@ func checkKeySet(rec *stats.Recorder, c keysCase) string {
 		perm[i], perm[j] = perm[j], perm[i]
 	}
 	for rep := 0; rep < 3; rep++ {
-		second, err := encodeKeySet(c.Kind, perm)
+		second, err := encodeKeySet(c.Kind, perm, nil)
 		if err != nil {
 			return fmt.Sprintf("distinct keys rejected: %v", err)
 		}
 		if second != first {
 			return fmt.Sprintf("batch ids depend on the order keys were supplied in: %s vs %s (keys %q)", hx.Q(first), hx.Q(second), c.Keys)
+		}
+	}
+	if len(c.EncodeAt) > 0 {
+		at := map[int]bool{}
+		for _, i := range c.EncodeAt {
+			at[i] = true
+		}
+		rec.Case("keyset_encoded_while_filling")
+		for _, ks := range [][]string{c.Keys, perm} {
+			third, err := encodeKeySet(c.Kind, ks, at)
+			if err != nil {
+				return fmt.Sprintf("distinct keys rejected (with intermediate encodes at %v): %v", c.EncodeAt, err)
+			}
+			if third != first {
+				return fmt.Sprintf("batch ids depend on earlier use of the key set (encoded after %v keys while filling): %s vs %s (keys %q)", c.EncodeAt, hx.Q(first), hx.Q(third), ks)
+			}
 		}
 	}
 	if !strings.HasPrefix(first, "ids=") {
@@ -287,6 +316,9 @@ func TestC09KeySets(t *testing.T) {
 			}
 		}
 		c.Perm = rapid.SliceOfN(rapid.IntRange(0, 1000), 1, 8).Draw(rt, "perm")
+		if rapid.Bool().Draw(rt, "intermediate") {
+			c.EncodeAt = rapid.SliceOfNDistinct(rapid.IntRange(0, len(c.Keys)), 1, 3, rapid.ID[int]).Draw(rt, "encode_at")
+		}
 		if msg := checkKeySet(rec, c); msg != "" {
 			if c.Kind == "string" && kf.Open("KF-none") {
 				return
